@@ -10,8 +10,15 @@ Record obs := mkObs {
   ob_reg : list nat;
   ob_add : list event;
   ob_render : list event;
-  ob_props : list (tgt * nat)     (* (target, key) pairs GetProperty finds afterwards, read through the table *)
+  ob_props : list (tgt * nat);    (* (target, key) pairs GetProperty finds afterwards, read through the table *)
+  ob_add_view : list nat;         (* per add-time invocation: the number of cells the target's row had at that moment *)
+  ob_render_view : list nat       (* the same per render-time invocation *)
 }.
+
+Definition evv_eqb (a b : event * nat) : bool := event_eqb (fst a) (fst b) && (snd a =? snd b).
+Definition count_evv (l : list (event * nat)) (e : event * nat) : nat := length (filter (evv_eqb e) l).
+Definition multiset_evv_eqb (a b : list (event * nat)) : bool :=
+  forallb (fun e => count_evv a e =? count_evv b e) (a ++ b).
 
 Definition count_ev (l : list event) (e : event) : nat := length (filter (event_eqb e) l).
 Definition multiset_eqb (a b : list event) : bool :=
@@ -40,6 +47,10 @@ Definition C13_ok (i : input) (o : res obs) : bool :=
         && events_eqb (ob_render ob) exp_render
         (* add time: exactly once per matching target (order free) *)
         && multiset_eqb (ob_add ob) exp_add
+        (* ... and each time on the row with its cells: what the callback could see *)
+        && (length (ob_add_view ob) =? length (ob_add ob))
+        && multiset_evv_eqb (combine (ob_add ob) (ob_add_view ob)) (combine exp_add (spec_add_views h))
+        && list_eqb Nat.eqb (ob_render_view ob) (spec_render_views h k)
         (* live object: what each callback set on its target is visible afterwards, and nothing else is *)
         && forallb (fun e : event => prop_mem (snd e, fst e) (ob_props ob)) (exp_add ++ exp_render)
         && forallb (fun p : tgt * nat => existsb (event_eqb (snd p, fst p)) (exp_add ++ exp_render)) (ob_props ob)
